@@ -539,6 +539,29 @@ pub fn gen_history_cases(prop: &str, tier: &str, rng: &mut Rng, start: usize, n:
                                 tree = Some(e);
                             }
                         }
+                        // attribute prefixes and text identifiers taken from the names the case itself uses
+                        let mut names: Vec<String> = Vec::new();
+                        for d in &docs {
+                            let d: &DocInput = d;
+                            if let Some(dom) = &d.dom {
+                                dom.root.all_names(&mut names);
+                            }
+                        }
+                        if !names.is_empty() {
+                            for k in 0..3 {
+                                let nm = names[r.below(names.len())].clone();
+                                let local = nm.split(':').last().unwrap_or("").to_string();
+                                let cut = local.char_indices().nth(1 + r.below(3)).map(|(i, _)| i).unwrap_or(local.len());
+                                let n = g.len();
+                                let mut o = g[(k + 5) % n].clone();
+                                match k {
+                                    0 => o.attribute_prefix = local[..cut].to_string(),
+                                    1 => o.attribute_prefix = local.clone(),
+                                    _ => o.text_identifier = local.clone(),
+                                }
+                                g.push(o);
+                            }
+                        }
                         if let Some(t) = &tree {
                             if let Ok(txt) = crate::implrun::render(t, &OptRec::quick()) {
                                 let names: Vec<&str> = txt.lines().filter_map(|l| l.strip_prefix("pub struct ").and_then(|x| x.strip_suffix(" {"))).collect();
